@@ -368,6 +368,8 @@ func BigTree(fan int) *xdoc.Doc {
 	list := r.AddElem("", "list", "")
 	for i := 1; i <= fan; i++ {
 		it := list.AddElem("", "item", "")
+		it.AddAttr("", "n", "", fmt.Sprint(i))
+		it.AddAttr("", "k", "", fmt.Sprint(i%7))
 		if i%64 == 1 || i > fan-3 {
 			it.AddElem("", "sub", "").AddText("v")
 			it.AddElem("", "sub", "")
@@ -386,5 +388,9 @@ func BigTree(fan int) *xdoc.Doc {
 		cur = cur.AddElem("", "n", "")
 	}
 	cur.AddText("bottom")
+	texts := r.AddElem("", "texts", "")
+	for i := 1; i <= fan; i++ {
+		texts.AddElem("", "w", "").AddText(fmt.Sprintf("w%d ", i))
+	}
 	return d.Finish()
 }
